@@ -302,7 +302,7 @@ def _full_cases():
 def phases(tier):
     n_ex = len(G["EXTRACTORS"])
     draws = 3 if tier == "quick" else 60
-    n_sub, n_full = (4000, 1200) if tier == "quick" else (150000, 50000)
+    n_sub, n_full = (4000, 1200) if tier == "quick" else (60000, 20000)
     seed_holder = {}
 
     def items():
